@@ -2,11 +2,12 @@
   C05/Model — transcription of otto's conversion and comparison code.
   value_number.go: Value.float64 (l.46), toIntegerFloat (l.117), toInt32 (l.208), toUint32 (l.228),
   toUint16 (l.252); value.go: sameValue (l.534), strictEqualityComparison (l.568);
-  evaluate.go: evaluateDivide (l.16), calculateBinaryExpression (l.52), calculateLessThan (l.147),
-  calculateComparison (l.210); value_boolean.go: Value.bool (l.10).
+  evaluate.go: evaluateDivide (l.17), calculateBinaryExpression (l.53), calculateLessThan (l.146),
+  lessThanUTF16 (l.178), calculateComparison (l.227); value_boolean.go: Value.bool (l.10).
   Strings enter only through the parameter `pn` (= parseNumber, modelled in C06).
 -/
 import OttoVerif.Base.F64
+import OttoVerif.Base.Str
 namespace OttoVerif.C05
 open OttoVerif.F64
 
@@ -130,10 +131,28 @@ def strLt : List Nat → List Nat → Bool
   | _ :: _, [] => false
   | a :: as, b :: bs => if a < b then true else if a > b then false else strLt as bs
 
-/-- calculateLessThan (evaluate.go:147) on primitives (ToPrimitive is the identity there). -/
+/-- the comparison of two differing runes in lessThanUTF16 (evaluate.go:182–190): a rune outside the BMP is a
+    surrogate pair whose first unit lies in 0xD800–0xDBFF -/
+def cmpRune (rx ry : Nat) : Bool :=
+  if (decide (rx ≥ 0x10000)) != (decide (ry ≥ 0x10000)) then
+    (if rx ≥ 0x10000 then decide (ry ≥ 0xE000) else decide (rx < 0xD800))
+  else decide (rx < ry)
+
+/-- the loop of lessThanUTF16 over the two rune sequences in lockstep (utf8.DecodeRuneInString, advance);
+    `len(x) < len(y)` at the exit: the shorter sequence is smaller -/
+def runeLess : List Nat → List Nat → Bool
+  | [], [] => false
+  | [], _ :: _ => true
+  | _ :: _, [] => false
+  | rx :: xs, ry :: ys => if rx ≠ ry then cmpRune rx ry else runeLess xs ys
+
+/-- lessThanUTF16 (evaluate.go:178) on Go strings (UTF-8 bytes; `Str.decodeRunes` = stepping with DecodeRune) -/
+def lessThanUTF16 (a b : List Nat) : Bool := runeLess (OttoVerif.Str.decodeRunes a) (OttoVerif.Str.decodeRunes b)
+
+/-- calculateLessThan (evaluate.go:146) on primitives (ToPrimitive is the identity there). -/
 def calculateLessThan (E : Env) (x y : Val) : Tri :=
   match x, y with
-  | .str a, .str b => if strLt a b then .t else .f
+  | .str a, .str b => if lessThanUTF16 a b then .t else .f
   | _, _ =>
     let fx := toFloat E x
     let fy := toFloat E y
